@@ -205,6 +205,12 @@ class Type3Tag(nfc.tag.Tag):
             if attributes['ver'] >> 4 != 1:
                 log.debug("unsupported ndef mapping major version")
                 return None
+            if attributes['nbr'] < 1:
+                log.debug("the tag does not allow to read any block")
+                return None
+            if attributes['ln'] > attributes['nmaxb'] * 16:
+                log.debug("ndef data length exceeds the data area")
+                return None
 
             last_block_number = 1 + (attributes['ln'] + 15) // 16
             data = bytearray()
